@@ -222,3 +222,9 @@ def run(cx):
         ob.require(ok, "new/agg", f"RequireAuthorization::new returns {show(t)}", nb.path)
         # the only writers of .auth / .inner are constructors (and derived Clone)
         check_field_writers(ob, prog, f"{AUTH}::service::RequireAuthorization", "auth", [], kinds=("mutref", "write"))
+
+    with cx.ob("C20.5", "R-SHAPE", "one layer out: cloning the layer / service / allow-list keeps the same authorizer and list (field-by-field Clone) and poll_ready is the inner service's readiness only") as ob:
+        for ty in ("anemo_tower::auth::service::RequireAuthorization", "anemo_tower::auth::layer::RequireAuthorizationLayer", "anemo_tower::auth::AllowedPeers"):
+            check_fieldwise_clone(ob, prog, ty)
+        check_poll_ready_delegates(ob, prog, "anemo_tower::auth::service::RequireAuthorization")
+        check_peer_id_identity_derived(ob, prog)
